@@ -5,6 +5,7 @@ from enum import StrEnum
 from rzilcompiler.Transformer.Pures.CompareOp import CompareOp
 from rzilcompiler.Transformer.Pures.Pure import Pure
 from rzilcompiler.Transformer.Pures.PureExec import PureExec
+from rzilcompiler.Transformer.ValueType import ValueType, VTGroup
 
 
 class BooleanOpType(StrEnum):
@@ -16,11 +17,14 @@ class BooleanOpType(StrEnum):
 class BooleanOp(PureExec):
     def __init__(self, name: str, a: Pure, b: Pure, op_type: BooleanOpType):
         self.op_type = op_type
+        # The result of !, && and || is a truth value (like the result of a comparison),
+        # not a value of the operand's type.
+        bool_type = ValueType(False, 1, VTGroup.PURE | VTGroup.BOOL)
 
         if b:
-            PureExec.__init__(self, name, [a, b], a.value_type)
+            PureExec.__init__(self, name, [a, b], bool_type)
         else:
-            PureExec.__init__(self, name, [a], a.value_type)
+            PureExec.__init__(self, name, [a], bool_type)
 
     def il_exec(self):
         a = (
